@@ -59,6 +59,7 @@ def shards(tier):
                 out.append({'kind': 'mat', 'T': t, 'prefix': list(p)})
     for i in range(len(BAG_EVENTS)):
         out.append({'kind': 'bag', 'first': i})
+    out.append({'kind': 'long'})
     return out
 
 
@@ -67,6 +68,12 @@ def run_shard(shard, ctx, tier):
     import sys
     mod = sys.modules[__name__]
     b = BOUNDS[tier]
+    if shard['kind'] == 'long':
+        for T in (499, 501, 999, 1001, 1100, 2100):
+            for place in ('start', 'middle', 'end'):
+                for n in (1, 2, 4):
+                    guarded_check(mod, {'long': [T, place, n]}, ctx)
+        return
     if shard['kind'] == 'mat':
         T, prefix = shard['T'], shard['prefix']
         for rest in itertools.product(range(len(ROWS)), repeat=T - len(prefix)):
@@ -302,7 +309,39 @@ def check_bag(case, ctx):
         ctx.nontrivial(tuple(case['bag']), 'bag-weight-changed-between-queries')
 
 
+def check_long(case, ctx):
+    """very long lines (more frames than any fixed sentinel): per-character confidences are still probabilities"""
+    from scipy import sparse
+    from pero_ocr.core.layout import TextLine
+    from pero_ocr.core.confidence_estimation import get_line_confidence
+    from pero_ocr.document_ocr.page_parser import PageParser
+    T, place, n = case['long']
+    M = np.full((T, 3), -6.0)
+    M[:, 2] = 6.0
+    first = {'start': 2, 'middle': T // 2 - n, 'end': T - 2 * n - 3}[place]
+    labels = [i % 2 for i in range(n)]
+    for i, l in enumerate(labels):
+        M[first + 2 * i, l] = 9.0
+    line = TextLine(id='l', logits=sparse.csc_matrix(M), characters=['a', 'b', '​'], logit_coords=[0, T])
+    ctx.state(('long', T, place, n))
+    conf = np.asarray(get_line_confidence(line, np.asarray(labels)), dtype=float)
+    clc = float(PageParser.compute_line_confidence(line))
+    ctx.executed(2)
+    if conf.shape != (n,) or not in01(conf) or not in01(clc):
+        ctx.violation('in-unit-interval', f'{ID}/long-line/range', f'{T} frames, {n} characters near the {place}: {conf}, line confidence {clc}')
+        return
+    if np.abs(conf - conf[0]).max() > 1e-6:
+        ctx.violation('computed-from-the-lines-own-posteriors', f'{ID}/long-line/position-dependent',
+                      f'{T} frames, {n} identically shaped characters near the {place}: confidences differ {conf}')
+        return
+    ctx.outcome(('long', round(float(conf[0]), 6)))
+    if T > 1000:
+        ctx.nontrivial(('long', T, place, n), 'lines-with-more-than-1000-frames')
+
+
 def check_case(case, ctx):
+    if 'long' in case:
+        return check_long(case, ctx)
     if 'bag' in case:
         check_bag(case, ctx)
     else:
@@ -322,6 +361,6 @@ def describe(tier):
         'assumptions': ['tolerance 1e-9 on shift invariance and normalisation', 'alignment is computed once and reused for the shifted copy, '
                         'so that round-off cannot flip a tie in the alignment'],
         'min_nontrivial': 100,
-        'required_tags': ['logits-reassigned-on-a-live-line', 'aligned-ctc-line', 'one-hot-line', 'one-frame-per-label-line', 'threshold-grid-splits',
+        'required_tags': ['lines-with-more-than-1000-frames', 'logits-reassigned-on-a-live-line', 'aligned-ctc-line', 'one-hot-line', 'one-frame-per-label-line', 'threshold-grid-splits',
                           'bag-weight-changed-between-queries'],
     }
